@@ -333,3 +333,121 @@ Proof.
   destruct (slot s1 i) as [|ty id'|ty id'] eqn:Hs; auto.
   destruct (Nat.eqb_spec id' id) as [->|]; auto. exfalso. eapply Hne; eauto.
 Qed.
+
+(* ---------- every client operation ---------- *)
+Lemma abs_set_nvb p s : abs (set_nvb p s) = aset_nvb p (abs s).
+Proof. reflexivity. Qed.
+Lemma abs_set_pres p s : abs (set_pres p s) = aset_pres p (abs s).
+Proof. reflexivity. Qed.
+Lemma abs_set_cl_remove k s : abs (set_cl (remove_nth k (cl s)) s) = aset_cl (remove_nth k (a_cl (abs s))) (abs s).
+Proof. unfold abs; sa. f_equal. apply map_remove_nth. Qed.
+
+Ltac rf :=
+  repeat first
+    [ rewrite R_swap | rewrite R_clear_inv by inv_chain | rewrite R_cdel by inv_chain | rewrite R_store by inv_chain
+    | rewrite R_clone by inv_chain | rewrite R_adopt by inv_chain | rewrite R_surrender by inv_chain
+    | rewrite R_setval by inv_chain | rewrite R_cset by inv_chain ].
+
+Lemma abs_fold_clear (g : nat -> nat) l s :
+  Inv s -> abs (fold_left (fun a n => p_clear (g n) a) l s) = fold_left (fun x n => a_clear (g n) x) l (abs s).
+Proof.
+  revert s; induction l as [|n l IH]; intros s HI; simpl; auto.
+  rewrite IH by (now apply Inv_p_clear). now rewrite R_clear_inv.
+Qed.
+
+Section Refine.
+Variables (H M : nat) (tys : list Z).
+
+Lemma src_slot_abs s j : src_slot H M s j = a_src H M (abs s) j.
+Proof. reflexivity. Qed.
+
+Lemma step_refines s o :
+  Good H M s ->
+  abs (snd (step H M tys s o)) = snd (astep H M tys (abs s) o) /\ fst (step H M tys s o) = fst (astep H M tys (abs s) o).
+Proof.
+  intros HG. pose proof HG as (HI & HS & HN).
+  destruct o; cbn [step astep].
+  - (* OConsVal *)
+    destruct (okh H i && okty ty)%bool; [|auto]. cbn [fst snd]. split; auto.
+    rewrite <- !(R_new ty v s HI), a_last_abs.
+    assert (I1 : Inv (p_new ty v s)) by inv_chain. set (s1 := p_new ty v s) in *. rf. reflexivity.
+  - (* OConsCopy *)
+    rewrite <- src_slot_abs. destruct (if okh H i then src_slot H M s j else None); [|auto]. cbn [fst snd]. split; auto.
+    rf. reflexivity.
+  - (* OAssignVal *)
+    destruct (okh H i && okty ty)%bool; [|auto]. cbn [fst snd]. split; auto.
+    rewrite <- !(R_new ty v s HI), a_last_abs.
+    assert (I1 : Inv (p_new ty v s)) by inv_chain. set (s1 := p_new ty v s) in *. rf. reflexivity.
+  - (* OAssign *)
+    rewrite <- src_slot_abs. destruct (if okh H i then src_slot H M s j else None); [|auto]. cbn [fst snd]. split; auto.
+    rf. reflexivity.
+  - destruct (okh H i && okh H j)%bool; [|auto]. cbn [fst snd]. split; auto. rf. reflexivity.
+  - destruct (okh H i); [|auto]. cbn [fst snd]. split; auto. rf. reflexivity.
+  - destruct (okty ty); [|auto]. cbn [fst snd]. split; auto. now rewrite R_new.
+  - destruct (0 <=? k); [|auto]. cbn [fst snd]. split; auto. rf. reflexivity.
+  - destruct (okh H i && (0 <=? k))%bool; [|auto]. cbn [fst snd]. split; auto. rf. reflexivity.
+  - destruct (okh H i); [|auto]. cbn [fst snd]. split; auto. rf. reflexivity.
+  - destruct (okh H i); [|auto]. cbn [fst snd]. split; auto. rf. reflexivity.
+  - (* OCast *)
+    destruct (okh H i); [|auto].
+    pose proof (cast_state s (hslot i) ty HI) as Hc. pose proof (R_cast s (hslot i) ty) as Hv.
+    destruct (cast s (hslot i) ty) as [[v|] s']; simpl in *; subst; rewrite <- Hv; auto.
+  - (* OMapAdd *)
+    destruct (okm M n && (0 <=? k))%bool eqn:E; [|auto].
+    rewrite acl_abs. destruct (nth_error (cl s) (Z.to_nat k)) as [id|] eqn:Hk; simpl option_map; cbn [fst snd]; [|auto]. split; auto.
+    rewrite abs_set_nvb.
+    rewrite (R_vm_add (Z.to_nat n) (mslot H n) id s (set_cl (remove_nth (Z.to_nat k) (cl s)) s)); auto.
+    + rewrite abs_set_cl_remove. reflexivity.
+    + unfold owned; sf. rewrite (remove_nth_perm _ id (cl s) Hk) at 1. apply Permutation_sym, Permutation_middle.
+  - (* OMapAddSame *)
+    change (mpres s n) with (nth (Z.to_nat n) (a_pres (abs s)) false).
+    destruct (okm M n && nth (Z.to_nat n) (a_pres (abs s)) false)%bool; [|auto].
+    rewrite aslot_abs. destruct (slot s (mslot H n)) as [|ty id|ty id] eqn:Hs; simpl habs; cbn [fst snd]; auto.
+    split; auto. rewrite (vm_add_same _ _ _ _ _ Hs). reflexivity.
+  - (* OMapClear *)
+    cbn [fst snd]. split; auto. unfold map_clear, a_map_clear. rewrite abs_set_nvb, abs_set_pres.
+    now rewrite (abs_fold_clear (fun n => S (H + n))).
+  - (* OMapGet *)
+    destruct (okm M n); [|auto]. change (mpres s n) with (nth (Z.to_nat n) (a_pres (abs s)) false).
+    destruct (nth (Z.to_nat n) (a_pres (abs s)) false); [|auto].
+    pose proof (cast_state s (mslot H n) ty HI) as Hc. pose proof (R_cast s (mslot H n) ty) as Hv.
+    destruct (cast s (mslot H n) ty) as [[v|] s']; simpl in *; subst; rewrite <- Hv; auto.
+  - (* OParse *)
+    destruct (okm M n) eqn:E; [|auto]. apply okm_range in E.
+    change (a_nvb (abs s)) with (nvb s).
+    destruct (nth (Z.to_nat n) (nvb s) false) eqn:Hb.
+    + destruct (ok =? 0); [auto|]. destruct (HN _ Hb) as (ty & id & Hs). fold (mslot H n) in Hs. rewrite Hs. cbn [fst snd]. split; auto.
+      destruct (fr_p_setval [] (mslot H n) v s) as (_ & B & C & _).
+      assert (Hs' : slot (p_setval (mslot H n) v s) (mslot H n) = HHeap ty id) by (rewrite B; auto).
+      rewrite (vm_add_same _ _ _ _ _ Hs'), abs_set_pres, C. rf. reflexivity.
+    + rewrite <- !(R_new (name_ty tys n) 0 s HI), a_last_abs.
+      assert (I1 : Inv (p_new (name_ty tys n) 0 s)) by inv_chain.
+      pose proof (last_cl_new (name_ty tys n) 0 s) as Hl.
+      set (s1 := p_new (name_ty tys n) 0 s) in *.
+      destruct (ok =? 0); cbn [fst snd]; [split; auto; rf; reflexivity|].
+      assert (Hc : cl (p_cset (last_cl s1) v s1) = cl s1).
+      { unfold p_cset. rewrite Hl. match goal with |- cl (obj_set ?a ?b ?c ?d) = _ => destruct (obj_set_fields a b c d) as (_ & B & _) end. exact B. }
+      rewrite <- (R_cset (last_cl s1) v s1 I1), acl_abs, Hc, Hl. simpl option_map. cbn [fst snd]. split; auto.
+      assert (I2 : Inv (p_cset (last_cl s1) v s1)) by inv_chain.
+      set (s2 := p_cset (last_cl s1) v s1) in *.
+      rewrite abs_set_nvb.
+      rewrite (R_vm_add (Z.to_nat n) (mslot H n) (length (led s)) s2 (set_cl (remove_nth (last_cl s1) (cl s1)) s2)); auto.
+      * rewrite <- Hc. rewrite abs_set_cl_remove. reflexivity.
+      * unfold owned; sf. rewrite Hc. rewrite (remove_nth_perm _ _ (cl s1) Hl) at 1. apply Permutation_sym, Permutation_middle.
+Qed.
+
+Lemma run_refines s ops :
+  Good H M s ->
+  abs (snd (run_ops H M tys s ops)) = snd (arun H M tys (abs s) ops).
+Proof.
+  revert s; induction ops as [|o ops IH]; intros s HG; simpl; auto.
+  destruct (step_refines s o HG) as (A & _). pose proof (Good_step H M tys s o HG) as HG1.
+  destruct (step H M tys s o) as [o1 s1]. destruct (astep H M tys (abs s) o) as [o1' a1]. simpl in *. subst a1.
+  specialize (IH s1 HG1). destruct (run_ops H M tys s1 ops) as [o2 s2]. destruct (arun H M tys (abs s1) ops) as [o2' a2]. exact IH.
+Qed.
+
+Lemma abs_init : abs (init H M) = ainit H M.
+Proof.
+  unfold abs, init, ainit; sf. f_equal. generalize (S (H + M)). intros k. induction k; simpl; auto. now rewrite IHk.
+Qed.
+End Refine.
